@@ -1095,13 +1095,29 @@ func (db *DB) ConnectionPoolStats(sqlDB *sql.DB) *PoolStats {
 
 // ColumnNames returns the names of all columns in the given table.
 func (db *DB) ColumnNames(table string) ([]string, error) {
+	// Ask for the names as data. The column names of a prepared "SELECT *" are
+	// fixed when the statement is prepared, which happens before the connection
+	// notices that another connection changed the schema, so they can be stale.
 	rows, err := db.queryStmtWithConn(context.Background(), &command.Statement{
-		Sql: fmt.Sprintf(`SELECT * FROM "%s" LIMIT 0`, strings.ReplaceAll(table, `"`, `""`)),
+		Sql: `SELECT name FROM pragma_table_xinfo(?) WHERE hidden != 1 ORDER BY cid`,
+		Parameters: []*command.Parameter{
+			{Value: &command.Parameter_S{S: table}},
+		},
 	}, false, db.roDB)
 	if err != nil {
 		return nil, err
 	}
-	return rows.Columns, nil
+	if len(rows.Values) == 0 {
+		return nil, fmt.Errorf("no such table: %s", table)
+	}
+	names := make([]string, len(rows.Values))
+	for i, v := range rows.Values {
+		if len(v.Parameters) != 1 {
+			return nil, fmt.Errorf("unexpected result from pragma_table_xinfo")
+		}
+		names[i] = v.Parameters[0].GetS()
+	}
+	return names, nil
 }
 
 // TableColumnTypes returns the declared types of all columns in the given table.
